@@ -84,7 +84,7 @@ TEXT = {'EQ': '==', 'NE': '!=', 'GT': '>', 'LT': '<', 'LTE': '<=', 'GTE': '>=', 
 NAMES = ['a', 'b', 'c', 'f', 'g', 'x', 'y', 'k2', '_t', 'имя', '%user name%', '%a.b%', 'len', 'map',
          'index', 'int', 'in_stock', 'notx', 'order', 'android', 'iffy', 'elsewhere', 'delta', 'Trueish', 'None_', 'forx', 'r', 'rr']
 NUMBERS = ['1', '2.5', '0', '007', '10.50', '3', '12345678901234567890123456789.5']
-STRINGS = ['"s"', "'q'", 'r"\\d+"', '"a\\"b"', '""', "'x y'", '"%z%"', '"# no comment"']
+STRINGS = ['"s"', "'q'", 'r"\\d+"', '"a\\"b"', '""', "'x y'", '"%z%"', '"# no comment"', '"#fff"', '"#000"', "'n#1'", "'n#2'"]
 SHORTS = ['+=', '-=', '*=', '/=']
 NEWLINES = [';', '\n', '\r\n']
 
@@ -221,15 +221,19 @@ def render_layout(types, rnd, bracket_newlines=0.25, extra_blanks=0.2, comments=
     return toks, ''.join(parts), spans
 
 
+KEPT_ALIVE = []          # suspended list_names generators that stay referenced (their cleanup code has not run)
+
+
 def earlier_call(P, r):
-    """one arbitrary earlier call on the same parser: failed parses at bracket depth, abandoned or failing list_names, evals that fail or succeed"""
-    k = r.randrange(8)
+    """one arbitrary earlier call on the same parser: failed parses at bracket depth or after complete lines, abandoned / suspended-and-kept /
+    failing list_names, evals that fail or succeed, with a dict, with names=None, with a read-only mapping"""
+    k = r.randrange(12)
     try:
         if k == 0:
-            P.parse(r.choice(['f(1, ', '[1, [2, ', '{"a": (', '1 + 2)', 'x = ]', '(((', 'a = [1,\n2,\n']))
+            P.parse(r.choice(['f(1, ', '[1, [2, ', '{"a": (', '1 + 2)', 'x = ]', '(((', 'a = [1,\n2,\n', 'x = 1\ny = )', 'q = nope_q; z = = 1', 'a = 1\nb = 2\nc d']))
         elif k == 1:
             g = P.list_names(r.choice(['a b c d', 'x + (y * [z', 'f(a, b)', 'total = sum([a, b']))
-            next(g, None)                      # abandoned midway
+            next(g, None)                      # abandoned midway (the generator is finalised when it goes out of scope)
         elif k == 2:
             list(P.list_names(r.choice(['total(items', 'x + (y * [z', 'p $ q', 'a[(b', 'msg.', ')) x'])))
         elif k == 3:
@@ -240,7 +244,20 @@ def earlier_call(P, r):
             P.eval('[1, 2, 3] | map(v => v * 2)')
         elif k == 6:
             any(n == 'b' for n in P.list_names('f(a, b) + [c'))
-        else:
+        elif k == 7:
             P.eval('rows = [1, 2]\nrows[7]', {'nope': 1, 'u': 2})
+        elif k == 8:
+            g = P.list_names(r.choice(['a\nb (c\nd', 'f(a,\n b, c', 'x\n\ny z']))
+            next(g, None)
+            next(g, None)
+            KEPT_ALIVE.append(g)               # suspended past a line break / inside a bracket, and still alive
+            del KEPT_ALIVE[:-4]
+        elif k == 9:
+            P.eval('sum = 1 + 2\nlen = 5\nnope = 1\nx = 7\nstr')       # no names mapping at all
+        elif k == 10:
+            import types
+            P.eval('x = 1\nlen = 3\nmax = 4', types.MappingProxyType({'y': 1}))   # a read-only names mapping
+        else:
+            P.eval('a = 1\nb = )')
     except Exception:
         pass
